@@ -221,3 +221,22 @@ def refinement(case, ctx):
             return
         raise Violation("counting changed by non-reversal samples: base %r -> %r ; refined %r -> %r" % (seq, sorted(a), fine, sorted(b)),
                         bucket="refinement" + (":prepended" if case["prepended"] else ""))
+
+
+def decode_bytes(data, tier=None):
+    """Fuzzer bytes -> case: byte 0 picks the scale, every further byte is one load in -15..15 (low 5 bits)."""
+    if len(data) < 3:
+        return None
+    seq = [float((b & 0x1F) - 15) for b in data[1:41]]
+    if len(set(seq)) < 2:
+        return None
+    return {"seq": seq, "scale": [1.0, 12.5, 100.0][data[0] % 3]}
+
+
+decode_bytes.seeds = [bytes([0]) + bytes(v + 15 for v in (10, -10, 8, 0, 6, 4, 7)), bytes([2] + [16] * 6)]
+
+
+@subcheck("C04", "second_pass_fuzz", fuzz=decode_bytes, quick=0, thorough=40000,
+          doc="coverage-guided (atheris/libFuzzer, fkm_nonlinear.py instrumented): bytes -> load sequence; same oracle as second_pass_random")
+def second_pass_fuzz(case, ctx):
+    check_second_pass(case["seq"], case["scale"], ctx)
